@@ -33,11 +33,13 @@ CHECKS = {
     "C13": dict(
         text="Pass-through: machine-checked proof, on the model of the StripInput fold, that no method is dropped/reordered, bodies/visibility/generics are untouched, exactly "
              "the foreign attributes survive at item and method level, parameters of non-handler methods are untouched, handler parameters lose only their attributes, "
-             "stripping is idempotent. The fold's source forms and the framework-attribute table are re-read from the source on every run; the real expansion's first item is "
+             "stripping is idempotent. `remove_input_attr` and the four overridden folds of `impl Fold for StripInput` are regenerated from sylvia-derive/src/fold.rs as Lean "
+             "definitions on every run (function translator, syn's tree as a view with opaque rests) and proved equal to the model's strip on every item "
+             "(StripFn.fold_item_impl_eq / fold_item_trait_eq / refines_model); the framework-attribute table is re-read from the source; the real expansion's first item is "
              "compared (a) with the model's prediction and (b) with an independent restatement of the rule, on generated items and on every macro-annotated item of the "
              "repository's tests and examples. Determinism is observed (twice in-process, once in a second process), not proved: partial for that clause.",
         design="§8 C13",
-        technique="Lean 4 proof on a fold model tied by source-form recognition + L1 differential; determinism by repeated expansion",
+        technique="Lean 4 proof (refinement of the fold regenerated from source by a function translator to the fold model) + L1 differential; determinism by repeated expansion",
         note=TB + " Determinism of the real expander is exploration only. syn's parser/printer are trusted."),
     "C01": dict(
         text="Machine-checked proofs: serde's wire name of a method equals the method name for every name of the property's shape (induction over the word list, "
